@@ -50,12 +50,12 @@ def passed (cfg : Cfg) (lk : Bytes) (id : Int) : List (Ev × Bool) → Int
   | x :: t => (if x.2 && hits cfg lk id x.1 then valOf cfg x.1 else 0) + passed cfg lk id t
 
 /-- index of the listed distribution value of an event, if its value is listed -/
-def listedIdx (r : Rule) (e : Ev) : Option Nat :=
-  r.distr.idxByKey.lookup (fieldVal e.fields r.distr.field)
+def listedIdx (d : Distr) (e : Ev) : Option Nat :=
+  d.idxByKey.lookup (fieldVal e.fields d.field)
 
 /-- amount of the passed events of `lk` in bucket `id` whose distribution value is listed under
-    ratio index `j` of rule `r` -/
-def passedListed (cfg : Cfg) (r : Rule) (lk : Bytes) (id : Int) (j : Nat) : List (Ev × Bool) → Int
+    ratio index `j` of the distribution `r` -/
+def passedListed (cfg : Cfg) (r : Distr) (lk : Bytes) (id : Int) (j : Nat) : List (Ev × Bool) → Int
   | [] => 0
   | x :: t => (if x.2 && hits cfg lk id x.1 && (listedIdx r x.1 == some j) then valOf cfg x.1 else 0)
       + passedListed cfg r lk id j t
@@ -108,7 +108,7 @@ def pairOK (cfg : Cfg) (obs : List (Ev × Bool)) (x : Ev × Bool) : Bool :=
     else if ir.2.distr.isEnabled then
       allIdx ir.2.distr.limits.length (fun j =>
         match ir.2.distr.limits[j]? with
-        | some s => decide (passedListed cfg ir.2 lk id j obs ≤ s)
+        | some s => decide (passedListed cfg ir.2.distr lk id j obs ≤ s)
         | none => true) &&
       decide (passed cfg lk id obs ≤ sumShares ir.2.distr)
     else decide (passed cfg lk id obs ≤ ir.2.limit)
@@ -175,21 +175,20 @@ def stealA (get : Nat → Int) (val : Int) : List Int → Nat → PickA → Pick
     else stealA get val ds (i + 1) p
 
 /-- column and limit an event is checked against (distribution enabled) -/
-def distrA (r : Rule) (get : Nat → Int) (e : Ev) : Nat × Int :=
-  match listedIdx r e with
+def distrA (d : Distr) (k : Kind) (get : Nat → Int) (e : Ev) : Nat × Int :=
+  match listedIdx d e with
   | some j =>
-    match r.distr.limits[j]? with
+    match d.limits[j]? with
     | some s => (j + 1, s)
-    | none => (0, r.distr.defLimit)     -- excluded by `distrOK`
+    | none => (0, d.defLimit)     -- excluded by `distrOK`
   | none =>
-    if get 0 + evVal r.kind e ≤ r.distr.defLimit then (0, r.distr.defLimit)
-    else
-      let p := stealA get (evVal r.kind e) r.distr.limits 0 ⟨-1, 0, r.distr.defLimit⟩
-      (p.col, p.limit)
+    if get 0 + evVal k e ≤ d.defLimit then (0, d.defLimit)
+    else ((stealA get (evVal k e) d.limits 0 ⟨-1, 0, d.defLimit⟩).col,
+          (stealA get (evVal k e) d.limits 0 ⟨-1, 0, d.defLimit⟩).limit)
 
 /-- column and limit an event of rule `r` is checked against -/
 def colLim (r : Rule) (get : Nat → Int) (e : Ev) : Nat × Int :=
-  if r.distr.isEnabled then distrA r get e else (0, r.limit)
+  if r.distr.isEnabled then distrA r.distr r.kind get e else (0, r.limit)
 
 /-- one event on the abstract machine -/
 def absStep (cfg : Cfg) (c : Cnt) (e : Ev) : Cnt × Bool :=
